@@ -6,7 +6,7 @@ import (
 	"os"
 
 	"verif/kit"
-	_ "verif/props"
+	"verif/props"
 )
 
 func main() {
@@ -15,6 +15,12 @@ func main() {
 		os.Exit(2)
 	}
 	id := os.Args[1]
+	switch id {
+	case "C08-explore":
+		os.Exit(props.C08ExploreMain(os.Args[2]))
+	case "C08-race":
+		os.Exit(props.C08RaceMain(os.Args[2]))
+	}
 	tier := os.Getenv("VERIF_TIER")
 	if tier == "" {
 		tier = "quick"
